@@ -43,6 +43,7 @@ def h_pdu(ctx, cfg, var, twin=False):
                             [lambda: FileDataPdu.unpack(bytes(build(LenCtx(), "filedata", cfg, dict(ndata=3, nmeta=2)).pdu.pack())),
                              lambda: FileDataPdu.unpack(bytes(build(LenCtx(), "filedata", cfg, dict(ndata=0)).pdu.pack()))])
     pack_hands_out_fresh_buffers(ctx, pdu.pack, ref)
+    decoded_object_owns_its_data(ctx, FileDataPdu.unpack, b.ref, lambda x: sym_and(b.check(x), x == pdu, x.pack() == raw))
     if twin:
         ctx.holds("twin", raw != ref)
 
